@@ -5,9 +5,11 @@ import copy
 import coqlit as L
 
 ID = "C14"
-THEOREMS = ["C14_split_attrs", "C14_swap_attrs", "C14_unflatten_inverse", "C14_lazy_attrs",
-            "C14_lazy_project", "C14_active_is_occupancy", "C14_fiber_estimate_covers",
-            "C14_owned_active_covers", "C14_model_meets_spec_partial"]
+THEOREMS = ["C14_split_attrs", "C14_swap_attrs", "C14_swizzle_attrs", "C14_flatten_attrs",
+            "C14_merge_attrs", "C14_unflatten_attrs", "C14_unflatten_inverse",
+            "C14_estimate_in_shape", "C14_build_in_shape", "C14_build_in_active",
+            "C14_build_explicit_shape", "C14_adopt", "C14_active_is_occupancy",
+            "C14_lazy_attrs", "C14_lazy_project", "C14_model_meets_spec"]
 COQ_IMPORTS = "From FT Require Import Model.Base Model.Obs Model.C14Attrs Model.C14Build Model.C14Check."
 CHECK_VO = ["Model/C14Check.v"]
 CHECKER = "c14_checker"
@@ -20,9 +22,12 @@ RULE = ("three case kinds. X: a tensor built with Tensor.fromFiber (2-4 ranks, p
         "flatten and merge in 5 coordinate styles, unflatten); observation = rank ids, authoritative shape, "
         "default, formats, mutable of the result. B: a fiber tree (depth 1-3, fibers with or without their own "
         "shape / active range, empty sub-fibers, explicit defaults) joined to a tensor with or without explicit "
-        "shape; observation = estimateShape of the unowned root, reported and authoritative shape, per rank id "
+        "shape, or a tensor made by fromUncompressed / makePopulated / fromRandom (the fiber tree these must "
+        "produce is rendered by the generator: dropped defaults, shape=len per fiber, PRNG draw order); "
+        "observation = estimateShape of the root, reported and authoritative shape, per rank id "
         "and default, per owned fiber id, default, coordinates, active range, iterActive and iterOccupancy "
-        "coordinates. L: two unowned fibers with ids / own shape / active range and one lazy operator; "
+        "coordinates. L: two fibers (unowned, or the root of a 1-rank tensor with explicit / estimated shape) "
+        "with ids / own shape / active range and one lazy operator; "
         "observation = id and active range of the result. distinct = distinct canonical JSON; non-trivial = "
         "the data has at least one stored element")
 TRUSTED = ["Coq 8.16.1 kernel (coqc; coqchk in the thorough tier); vm_compute used; native_compute not used",
@@ -90,8 +95,10 @@ def coq_atree(t):
 
 
 def coq_raw(r):
-    return "(mkR %s %s %s %s)" % (coq_atom(r["id"]), L.opt(r["own"], L.z),
-                                  L.opt(r["act"], lambda a: L.tup(L.z(a[0]), L.z(a[1]))), L.zlist(r["coords"]))
+    owned = r.get("owned")
+    return "(mkR %s %s %s %s %s)" % (coq_atom(r["id"]), L.opt(r["own"], L.z),
+                                     L.opt(r["act"], lambda a: L.tup(L.z(a[0]), L.z(a[1]))), L.zlist(r["coords"]),
+                                     "None" if owned is None else "(Some %s)" % L.opt(owned["shape"], L.z))
 
 
 def case_to_coq(c):
@@ -279,6 +286,88 @@ def gen_atree(rng, depth, dims, d, own_p, act_p, level_max):
     return ["n", own, act, es]
 
 
+def dense_of(rng, dims, d, p_zero):
+    if len(dims) == 1:
+        return [d if rng.random() < p_zero else rng.randint(1, 9) for _ in range(dims[0])]
+    return [dense_of(rng, dims[1:], d, p_zero) for _ in range(dims[0])]
+
+
+def ref_make_fiber(pl, d):
+    """reference rendering of Fiber.fromUncompressed: the atree literal it must produce
+    (elements equal to the default and sub-lists without any element are dropped; every fiber
+    is given shape=len(list))"""
+    if isinstance(pl[0], list):
+        es = []
+        for c, p in enumerate(pl):
+            sub = ref_make_fiber(p, d)
+            if sub[3]:
+                es.append([c, sub])
+    else:
+        es = [[c, p] for c, p in enumerate(pl) if p != d]
+    return ["n", len(pl), None, es]
+
+
+def ref_random(shape, density, interval, seed, d):
+    """reference rendering of the draw order of Fiber.fromRandom (scalar density)"""
+    import random as R
+    R.seed(seed)
+
+    def go(shape, dens):
+        es = []
+        for c in range(shape[0]):
+            if R.random() < dens[0]:
+                if len(shape) == 1:
+                    p = R.randint(1, interval)
+                    if p == d:
+                        continue
+                else:
+                    p = go(shape[1:], dens[1:])
+                    if not p[3] or all(is_empty_a(x, d) for _, x in p[3]):
+                        continue
+            else:
+                if d == 0:
+                    continue
+                p = 0
+            es.append([c, p])
+        return ["n", None, None, es]
+    return go(shape, (len(shape) - 1) * [1.0] + [density])
+
+
+def is_empty_a(t, d):
+    if isinstance(t, int):
+        return t == d
+    return all(is_empty_a(x, d) for _, x in t[3])
+
+
+def gen_kb_ctor(rng):
+    depth = rng.choice([1, 2, 2, 3])
+    dims = [rng.randint(1, 4) for _ in range(depth)]
+    d = rng.choice([0, 0, 3])
+    names = NAMES[:]
+    rng.shuffle(names)
+    ids = names[:depth]
+    via = rng.choice(["fromUncompressed", "fromUncompressed", "fromRandom", "makePopulated",
+                      "Fiber.fromUncompressed"])
+    if via == "Fiber.fromUncompressed":                    # the fibers' own shape=len(list) decide
+        dense = dense_of(rng, dims, d, rng.choice([0.0, 0.3, 0.7, 1.0]))
+        return {"k": "B", "via": via, "ids": ids, "shape": None, "d": d,
+                "tree": ref_make_fiber(dense, d), "dense": dense}
+    if via == "fromUncompressed":
+        dense = dense_of(rng, dims, d, rng.choice([0.0, 0.3, 0.7, 1.0]))
+        given = [x + rng.randint(0, 2) for x in dims] if rng.random() < 0.4 else None
+        return {"k": "B", "via": via, "ids": ids, "shape": given or dims, "d": d,
+                "tree": ref_make_fiber(dense, d), "dense": dense, "given_shape": given}
+    if via == "makePopulated":
+        initial = rng.choice([d, 1, 2, 7])
+        dense = dense_of(rng, dims, initial, 1.0)
+        return {"k": "B", "via": via, "ids": ids, "shape": dims, "d": d,
+                "tree": ref_make_fiber(dense, d), "initial": initial}
+    seed = rng.randint(0, 10 ** 6)
+    density = rng.choice([0.2, 0.5, 0.9])
+    return {"k": "B", "via": via, "ids": ids, "shape": dims, "d": d,
+            "tree": ref_random(dims, density, 6, seed, d), "seed": seed, "density": density}
+
+
 def gen_kb(rng):
     depth = rng.choice([1, 2, 2, 3])
     dims = [rng.randint(1, 6) for _ in range(depth)]
@@ -301,7 +390,10 @@ def gen_raw(rng, names):
     if rng.random() < 0.3:
         lo = rng.randint(0, 3)
         act = [lo, lo + rng.randint(1, 8)]
-    return {"id": names.pop(), "own": own, "act": act, "coords": coords}
+    owned = None
+    if rng.random() < 0.45:                                # root of a 1-rank tensor
+        owned = {"shape": rng.choice([None, None, 8, 9, 12])}
+    return {"id": names.pop(), "own": own, "act": act, "coords": coords, "owned": owned}
 
 
 def gen_kl(rng):
@@ -317,7 +409,8 @@ def gen_kl(rng):
         op["k"] = rng.randint(-3, 12)
         op["interval"] = None if rng.random() < 0.6 else sorted(rng.sample(range(-4, 20), 2))
         op["rank_id"] = None if rng.random() < 0.5 else names.pop()
-        if op["interval"] is None and a["act"] is None and a["own"] is None and not a["coords"]:
+        if (op["interval"] is None and a["act"] is None and a["own"] is None and not a["coords"]
+                and (a["owned"] is None or a["owned"]["shape"] is None)):
             a["own"] = 8                                   # empty active range: outside wf
     return {"k": "L", "op": op, "a": a, "b": b}
 
@@ -326,6 +419,7 @@ def streams(tier, rng):
     mul = 1 if tier == "quick" else 12
     yield ("transform-attrs", [gen_kx(rng) for _ in range(700 * mul)], False)
     yield ("build", [gen_kb(rng) for _ in range(450 * mul)], False)
+    yield ("constructors", [gen_kb_ctor(rng) for _ in range(300 * mul)], False)
     yield ("lazy", [gen_kl(rng) for _ in range(350 * mul)], False)
 
 
@@ -344,7 +438,8 @@ def describe(c):
                 "authoritative": c["auth"], "nonzero_default": c["d"] != 0,
                 "has_flattened_rank": any(isinstance(r, list) for r in c["ids"])}
     if c["k"] == "B":
-        return {"kind": "B", "explicit_shape": c["shape"] is not None, "nonzero_default": c["d"] != 0}
+        return {"kind": "B:" + c.get("via", "fromFiber"), "explicit_shape": c["shape"] is not None,
+                "nonzero_default": c["d"] != 0}
     return {"kind": "L:" + c["op"]["o"]}
 
 
@@ -432,9 +527,26 @@ def run_impl(c):
         assert _attrs(T) == before, "operand attributes changed"
         return _attrs(R)
     if c["k"] == "B":
-        root = _build_a(c["tree"], 5)
-        est = root.estimateShape()
-        T = Tensor.fromFiber(rank_ids=list(c["ids"]), fiber=root, shape=c["shape"], default=c["d"])
+        via = c.get("via", "fromFiber")
+        if via == "fromFiber":
+            root = _build_a(c["tree"], 5)
+            est = root.estimateShape()
+            T = Tensor.fromFiber(rank_ids=list(c["ids"]), fiber=root, shape=c["shape"], default=c["d"])
+        else:
+            if via == "Fiber.fromUncompressed":
+                T = Tensor.fromFiber(rank_ids=list(c["ids"]),
+                                     fiber=Fiber.fromUncompressed(copy.deepcopy(c["dense"]), default=c["d"]),
+                                     shape=None, default=c["d"])
+            elif via == "fromUncompressed":
+                T = Tensor.fromUncompressed(rank_ids=list(c["ids"]), root=copy.deepcopy(c["dense"]),
+                                            shape=c["given_shape"], default=c["d"])
+            elif via == "makePopulated":
+                T = Tensor.makePopulated(list(c["ids"]), list(c["shape"]), initial=c["initial"], default=c["d"])
+                assert T.isMutable()
+            else:
+                T = Tensor.fromRandom(rank_ids=list(c["ids"]), shape=list(c["shape"]), density=c["density"],
+                                      interval=6, seed=c["seed"], default=c["d"])
+            est = T.getRoot().estimateShape()
         auth = T.getShape(authoritative=True)
         levels = []
         for rank in T.ranks:
@@ -446,14 +558,21 @@ def run_impl(c):
             levels.append([enc_rid(rank.getId()), _dflt(rank.getDefault()), fos])
         return [est, T.getShape(), [] if auth is None else [auth], levels]
     fs = []
+    keep = []
     for r in (c["a"], c["b"]):
         kw = {}
         if r["own"] is not None:
             kw["shape"] = r["own"]
         if r["act"] is not None:
             kw["active_range"] = tuple(r["act"])
-        f = Fiber(list(r["coords"]), [i + 1 for i in range(len(r["coords"]))], **kw)
-        f.getRankAttrs().setId(r["id"])
+        f = Fiber(list(r["coords"]), [1 for _ in r["coords"]], **kw)
+        if r.get("owned") is None:
+            f.getRankAttrs().setId(r["id"])
+        else:
+            sh = r["owned"]["shape"]
+            T = Tensor.fromFiber(rank_ids=[r["id"]], fiber=f, shape=None if sh is None else [sh])
+            keep.append(T)
+            f = T.getRoot()
         fs.append(f)
     a, b = fs
     op = c["op"]
@@ -508,6 +627,8 @@ def shrinks(c):
                     n = copy.deepcopy(c)
                     n["fmts"][i] = False
                     yield n
+    elif c["k"] == "B" and c.get("via", "fromFiber") != "fromFiber":
+        return                                             # tree is derived from dense / seed
     elif c["k"] == "B":
         def subs(t):
             for i in range(len(t[3])):
@@ -540,6 +661,7 @@ def search(disagreeing, rng, rnd):
             out.append(gen_kx(rng))
         if "B" in kinds:
             out.append(gen_kb(rng))
+            out.append(gen_kb_ctor(rng))
         if "L" in kinds:
             out.append(gen_kl(rng))
     return out
